@@ -272,11 +272,31 @@ def mkDict : List (String × Val) → Val
 def arange (c : Cont) (n : Nat) : Val :=
   .tens c [n] ((List.range n).map (fun (i : Nat) => Atom.num .int (.fin ((i : Int) : Rat))))
 
-/-- `dict_to_list` on one value: `list(v)` -/
+/-- `[d[key 0], d[key 1], …, d[key (len d − 1)]]`: an index-keyed dictionary (HDF5 lists its
+    members alphabetically, `'10'` before `'2'`) is read by *constructed key*, never in storage
+    order.  The result is the chain keyed `key 0, key 1, …` in numeric order. -/
+def byIndexAux (key : Nat → String) (d : Val) : Nat → Nat → Except Err Val
+  | _, 0 => .ok .dnil
+  | i, n + 1 => do
+      let v ← req d (key i)
+      let r ← byIndexAux key d (i + 1) n
+      pure (.dcons (key i) v r)
+
+def byIndex (key : Nat → String) (d : Val) : Except Err Val := byIndexAux key d 0 d.size
+
+/-- `str(i)` -/
+def indexKey (i : Nat) : String := Nat.repr i
+
+/-- `'model_%d' % i` -/
+def modelKey (i : Nat) : String := "model_" ++ Nat.repr i
+
+/-- `dict_to_list` on one value: `list(v)`; an index-keyed group (the list fall-back of
+    `_write_list`, used for ragged / mixed lists) becomes the list of its entries in numeric
+    order — represented as the chain keyed `"0", "1", …` -/
 def toListVal : Val → Except Err Val
   | .tens _ (n :: sh) el => .ok (.tens .list (n :: sh) el)
   | .dnil => .ok .dnil
-  | .dcons k v r => .ok (.dcons k v r)     -- index-keyed group: outside the modelled class
+  | .dcons k v r => byIndex indexKey (.dcons k v r)
   | _ => .error .typeError
 
 def dictToList (d : Val) : Except Err Val := d.mapValsM toListVal
@@ -501,7 +521,8 @@ def resultFromDict (recompute : Val → Val → Val → Nat → Val × Val × Va
   let cv ← req d "cv_method"
   let nc ← req d "noise_ceiling"
   let msD ← req d "models"
-  let ms ← msD.mapValsM modelFromDict
+  let msL ← byIndex modelKey msD          -- `result_dict['models']['model_%d' % i]`, i < len
+  let ms ← msL.mapValsM modelFromDict
   let nr ← req d "n_rdm"
   let np ← req d "n_pattern"
   if secondDim ev ≠ some ms.size then .error .assertion
